@@ -71,6 +71,20 @@ Theorem C15_generate_parse_timelock_spend : forall sig pk height pkh,
 Proof. exact generate_parse_timelock_spend. Qed.
 Print Assumptions C15_generate_parse_timelock_spend.
 
+(* mutually inverse: generating again from the values the parser returned reproduces the script
+   byte for byte *)
+Theorem C15_parse_then_generate_output : forall name ops vs s vs', In (name, ops) output_templates ->
+  values_fit ops vs -> generate ops vs = Some s -> parse_output s = SMatch name vs' ->
+  generate ops vs' = Some s.
+Proof. exact parse_then_generate_output. Qed.
+Print Assumptions C15_parse_then_generate_output.
+
+Theorem C15_parse_then_generate_input : forall name ops vs s vs', In (name, ops) input_simple_templates ->
+  values_fit ops vs -> generate ops vs = Some s -> parse_input s = SMatch name vs' ->
+  generate ops vs' = Some s.
+Proof. exact parse_then_generate_input. Qed.
+Print Assumptions C15_parse_then_generate_input.
+
 (* ---- what the parser accepts, on ARBITRARY byte strings ---- *)
 
 (* OutputScript parsing matches a template exactly when the tokens have that template's explicit
@@ -86,10 +100,32 @@ Theorem C15_output_unambiguous : forall toks n1 v1 n2 v2,
 Proof. exact out_shape_unique. Qed.
 Print Assumptions C15_output_unambiguous.
 
+(* ValueError exactly when the tokenizer stops on a partial PUSHDATA2/4 length (struct.error,
+   re-raised as ValueError by Script.parse) or the tokens have none of the shapes *)
 Theorem C15_parse_output_nomatch : forall s, parse_output s = SNoMatch <->
+  tokenize s = TokErr StructError \/
   exists toks, tokenize s = TokOk toks /\ forall name vs, ~ out_shape name toks vs.
 Proof. exact parse_output_nomatch. Qed.
 Print Assumptions C15_parse_output_nomatch.
+
+(* InputScript parsing, all four templates of InputScript.templates (the non-greedy PUSH_MANY parser
+   included). The template order is visible in the multi_sig clause: OP_0 <d> <d> also has the
+   multi_sig shape but is read as script_hash+timelock with an empty signature, so multi_sig needs
+   at least two signatures *)
+Theorem C15_parse_input_shapes : forall s name vs,
+  parse_input s = SMatch name vs <-> exists toks, tokenize s = TokOk toks /\ in_shape name toks vs.
+Proof. exact parse_input_shapes. Qed.
+Print Assumptions C15_parse_input_shapes.
+
+(* the subscript of a time-lock spend, parsed under its template hint, on arbitrary byte strings: the
+   height is the little-endian value of the first datum, whatever its width *)
+Theorem C15_parse_timelock_shapes : forall s name vs,
+  parse_sub SubTimeLock s = SMatch name vs <->
+  exists h a k, pushed a k /\ name = T_timelock /\
+    tokenize s = TokOk ([TData h; TOp OP_CHECKLOCKTIMEVERIFY; TOp OP_DROP] ++ pkh_tail a) /\
+    vs = [(F_height, VInt (le_decode h)); (F_pubkey_hash, VBytes k)].
+Proof. exact parse_timelock_shapes. Qed.
+Print Assumptions C15_parse_timelock_shapes.
 
 (* ---- classification ---- *)
 
@@ -98,7 +134,8 @@ Print Assumptions C15_parse_output_nomatch.
 Theorem C15_classification : forall s c,
   classify s = c <->
   match c with
-  | CError => tokenize s = TokErr StructError
+  | CError => False
+  | CNoMatch => tokenize s = TokErr StructError \/ exists toks, tokenize s = TokOk toks /\ class_shape c toks
   | _ => exists toks, tokenize s = TokOk toks /\ class_shape c toks
   end.
 Proof. exact classify_iff. Qed.
@@ -139,7 +176,7 @@ Example C15_ex_classes :
   (option_map classify (generate (snd CLAIM_NAME_PUBKEY) ex_claim_values),
    option_map classify (generate (snd PAY_PUBKEY_HASH) [(F_pubkey_hash, VBytes ex_hash)]),
    classify (bs [106; 1; 80]), classify (bs [106; 1; 81]), classify [], classify (bs [181]), classify (bs [77; 1]))
-  = (Some CClaim, Some CPayment, CPurchase, CData, CEmpty, CNoMatch, CError).
+  = (Some CClaim, Some CPayment, CPurchase, CData, CEmpty, CNoMatch, CNoMatch).
 Proof. vm_compute. reflexivity. Qed.
 Example C15_ex_timelock_fit : values_fit (snd TIME_LOCK_SCRIPT) [(F_height, VInt 500); (F_pubkey_hash, VBytes ex_hash)].
 Proof. exact ex_timelock_fit. Qed.
